@@ -496,6 +496,18 @@ fn oracle_c11(env: &Env, txs: &[Transaction], acc: &mut Acc) -> Vec<Obs> {
                             _ => {}
                         }
                     }
+                    // expenditure incurred since the holding was last empty: under every reading, shares held now
+                    // were acquired after that moment, so a return above it can never be absorbed
+                    let last_zero = r.traces.get(&tk).and_then(|tr| tr.iter().filter(|d| d.date < e.date && d.pos_end.is_zero()).map(|d| d.date).max());
+                    let mut since = Rat::zero();
+                    for t in rtx.iter().filter(|t| t.ticker == tk && t.date < e.date && last_zero.map(|z| t.date > z).unwrap_or(true)) {
+                        match &t.op {
+                            mcx::refmodel::ROp::Buy { q, p, f } => since += q * p + f,
+                            mcx::refmodel::ROp::Accum { total } => since += total,
+                            _ => {}
+                        }
+                    }
+                    let ever = if last_zero.is_some() { since } else { ever };
                     if net <= lower {
                         acc.bump("bracket:return-absorbable");
                         if let Outcome::Err { msg, .. } = &out {
@@ -643,9 +655,26 @@ fn oracle_c09(env: &Env, txs: &[Transaction], acc: &mut Acc) -> Vec<Obs> {
                 if da.len() != db.len() || da.iter().zip(db.iter()).any(|(x, y)| x.date != y.date) {
                     res.push(ob("independence-disposals", format!("{tk}: disposals in the combined report {:?} vs alone {:?}", da.iter().map(|d| d.date).collect::<Vec<_>>(), db.iter().map(|d| d.date).collect::<Vec<_>>())));
                 } else {
+                    // two SELL lines of one security on one day: the leg partition and each leg's share of the
+                    // proceeds follow the line order (open finding C06-F2); compare figures and legs' (rule, date,
+                    // quantity, cost) then, the literal leg lists otherwise
+                    let multi_sell = txs.iter().enumerate().any(|(i, x)| matches!(x.operation, Operation::Sell { .. }) && txs.iter().skip(i + 1).any(|y| matches!(y.operation, Operation::Sell { .. }) && y.date == x.date && y.ticker == x.ticker));
                     let mut dd = vec![];
                     for (x, y) in da.iter().zip(db.iter()) {
-                        view::diff_disposal(x, y, Level::L3, "combined", "alone", &mut dd);
+                        if multi_sell {
+                            view::diff_disposal(x, y, Level::L1, "combined", "alone", &mut dd);
+                            let (mx, my) = (x.merged(), y.merged());
+                            let keys: std::collections::BTreeSet<_> = mx.keys().chain(my.keys()).cloned().collect();
+                            for k in keys {
+                                let z = (Rat::zero(), Rat::zero(), Rat::zero());
+                                let (a, b) = (mx.get(&k).unwrap_or(&z), my.get(&k).unwrap_or(&z));
+                                if !a.0.close(&b.0) || !a.1.close(&b.1) {
+                                    dd.push(Diff { clause: "L2", detail: format!("disposal {} {}: leg {:?}/{:?} combined=(q {}, cost {}) alone=(q {}, cost {})", x.date, x.ticker, k.0, k.1, a.0, a.1, b.0, b.1) });
+                                }
+                            }
+                        } else {
+                            view::diff_disposal(x, y, Level::L3, "combined", "alone", &mut dd);
+                        }
                     }
                     res.extend(obs_from(dd).into_iter().map(|mut o| { o.clause = "independence-disposals".into(); o }));
                 }
@@ -684,7 +713,8 @@ fn oracle_c09(env: &Env, txs: &[Transaction], acc: &mut Acc) -> Vec<Obs> {
     let orev = env.calc(&rev);
     match (&out, &orev) {
         (Outcome::Report(a), Outcome::Report(b)) => {
-            let d = view::diff_reports(&view::view(b), &view::view(a), Level::L3, &CmpOpts { label_a: "reversed", label_b: "canonical", ..Default::default() });
+            let multi_sell = txs.iter().enumerate().any(|(i, x)| matches!(x.operation, Operation::Sell { .. }) && txs.iter().skip(i + 1).any(|y| matches!(y.operation, Operation::Sell { .. }) && y.date == x.date && y.ticker == x.ticker));
+            let d = view::diff_reports(&view::view(b), &view::view(a), if multi_sell { Level::L1 } else { Level::L3 }, &CmpOpts { label_a: "reversed", label_b: "canonical", ..Default::default() });
             res.extend(with_ctx(obs_from(d).into_iter().map(|mut o| { o.clause = "interleaving-order".into(); o }).collect(), json!({"variant": "reversed line order"}), None));
         }
         (Outcome::Err { .. }, Outcome::Err { .. }) => {}
@@ -883,7 +913,7 @@ pub fn oracle(prop: &str, env: &Env, txs: &[Transaction], acc: &mut Acc, tier: T
 fn visit(prop: &str, ctx: &Ctx, env: &Env, acc: &mut Acc, txs: &[Transaction], profile: &str) {
     // conservation / arithmetic laws hold in every line order: also run an order in which rows of one
     // (date, security, kind) are not adjacent (the canonical order keeps them adjacent, where the tool merges them)
-    if matches!(prop, "C02" | "C03" | "C09" | "C11") {
+    if matches!(prop, "C01" | "C02" | "C03" | "C09" | "C11") {
         for il in profiles::other_orders(txs) {
             acc.bump("interleaved-line-order-also-run");
             visit_one(prop, ctx, env, acc, &il, profile);
@@ -969,6 +999,7 @@ pub fn c01(tier: Tier) -> i32 {
         Tier::Thorough => (alpha::date(1900, 4, 6), alpha::date(2100, 12, 31)),
     };
     explore_list("C01", &mut ctx, &env, "calendar", calendar_ledgers(from, to), &mut acc, &format!("BUY(D-100) SELL(D) BUY(D+g), every D in {from}..{to}, g in -1,0,1,29,30,31,32"));
+    explore_alpha("C01", &mut ctx, &env, &crate::perm::fills_alphabet(), if tier == Tier::Quick { 5 } else { 6 }, &mut acc);
     explore_list("C01", &mut ctx, &env, "compete", profiles::compete_ledgers(), &mut acc, "2-3 consecutive disposal days + an acquisition day with its own disposal, all quantity combinations, with/without a split in between");
     for k in ["legs:same-day", "legs:30-day", "legs:section-104", "shape:30-day-leg-across-split", "shape:30-day-leg-onto-day-with-own-disposal", "shape:several-disposals-claim-one-acquisition-day", "shape:30-day-leg-at-exactly-D+30", "shape:disposal-spread-over-several-rules"] {
         ctx.require(acc.get(k) > 0, &format!("no state exhibited {k}"));
@@ -1053,6 +1084,7 @@ pub fn c09(tier: Tier) -> i32 {
         Tier::Thorough => 6,
     };
     explore_alpha("C09", &mut ctx, &env, &profiles::two_sec(), n, &mut acc);
+    explore_alpha("C09", &mut ctx, &env, &profiles::two_sec_fills(), n + 1, &mut acc);
     crate::text::c09_case_spellings(&mut ctx, &env, &mut acc);
     ctx.require(acc.get("combined-vs-singles-compared") > 0, "no accepted two-security ledger");
     ctx.require(acc.get("case-spellings-compared") > 0, "no case spelling compared");
@@ -1109,11 +1141,12 @@ pub fn c12(tier: Tier) -> i32 {
         Tier::Thorough => (4, 4),
     };
     explore_alpha("C12", &mut ctx, &env, &profiles::match1(&["2"], false), n_m, &mut acc);
-    explore_alpha("C12", &mut ctx, &env, &profiles::two_sec_plain(), n_two, &mut acc);
+    explore_alpha("C12", &mut ctx, &env, &profiles::two_sec(), n_two, &mut acc);
+    explore_alpha("C12", &mut ctx, &env, &profiles::events(&["2"]), n_two, &mut acc);
     ctx.require(acc.get("extension-accepted") > 0 && acc.get("extension-rejected") > 0, "extensions must include accepted and rejected ones");
     ctx.bound = json!({"prefix_match1_max_events": n_m, "prefix_two_sec_max_events": n_two, "suffix_max_events": if tier == Tier::Quick { 1 } else { 2 }});
     ctx.explanation = "Edges prefix -> prefix+suffix of the ledger graph: for every accepted prefix, every sequence of up to k events from {BUY, SELL 3, SELL 99, SPLIT 2, UNSPLIT 2, DIVIDEND} dated T+31, T+32, T+45 (T = last prefix date) is appended and the real calculate() run again: every prefix disposal must reappear with identical leg list, cost and gain; totals of years that gained no disposal are unchanged; a refusal must be caused by (and name) an appended date. transitions = extensions executed.".into();
-    ctx.assumptions = vec![STD_ASSUME.into(), "CAPRETURN/ACCUMULATION excluded from prefixes and suffixes as the statement says".into()];
+    ctx.assumptions = vec![STD_ASSUME.into(), "CAPRETURN/ACCUMULATION are never appended (the statement excludes them from continuations); prefixes may contain them".into()];
     ctx.finish(&acc, "model_checking")
 }
 
